@@ -14,15 +14,12 @@ detection over the character classes regenerated from the source).
 Proved: FASTA (every wrap width `w > 0`, every number of rows, every length, every duplicate-name policy,
 with or without the proposed "no sequence ⇒ error" patch), Stockholm, Nexus (repaired parser; the unrepaired
 one has the kernel-checked counter-example below), Phylip (`roundtrip_phylip`: all 8 combinations of
-strict / one-line / no-block; `roundtrip_phylip_widths`: every line and group width), Clustal
+strict / one-line / no-block; `roundtrip_phylip_widths`: every line and group width; `phylip_multi`), Clustal
 (`roundtrip_clustal`), and the auto-detection of the written format.  Helper developments:
-`Proofs/{FastaRT, StockholmRT, NexusRT, PhylipRT, PhylipRT2, PhylipRT3, ClustalRT … ClustalRT4, ReprRows}.lean`.
+`Proofs/{FastaRT, StockholmRT, NexusRT, PhylipRT … PhylipRT4, ClustalRT … ClustalRT4, ReprRows}.lean`.
 
-Open (checked on the implementation by the oracle predicate on every run, see `PARTIAL` in
-driver/props/c02.py):
-
-  theorem phylip_multi (as) (h : ∀ a ∈ as, reprPhylip strict a) :
-      Phylip.parseMultiple strict (as.flatMap (Phylip.write strict ol nb)) = (as.map …, ok)
+The multi-alignment Phylip stream (`ParseMultiple`) is `phylip_multi`.  Nothing of the property's statement is
+left open; `.gz` / `.xz` files are observed on the implementation only (compression is a trusted external).
 -/
 namespace Gv.Props.C02
 open Gv Gv.Model Gv.Model.Fmt Gv.Model.Fmt.Fasta Gv.Proofs.FastaRT
@@ -712,6 +709,39 @@ example : Phylip.parse false ⟨true, 0, 2⟩ (Phylip.write true false false
       [([49, 50], [65, 82, 45, 76]), ([97, 98, 99, 100, 101, 102, 103, 104, 105, 106], [97, 69, 68, 42])]) =
     .ok (some ⟨AMINOACIDS, 4, [([49, 50], [65, 82, 45, 76]), ([97, 98, 99, 100, 101, 102, 103, 104, 105, 106], [97, 69, 68, 42])]⟩) := by
   decide
+
+
+/-- **Multi-alignment Phylip streams** (`ParseMultiple`, e.g. bootstrap replicates): writing any list of
+representable alignments one after the other (any of the 8 layouts) and parsing the stream gives back every
+alignment — names, order, residues, length (`alnOf`: the length of its first row), detected alphabet — and
+no error, whatever the fuel of the model's loop above the number of alignments. -/
+theorem phylip_multi (af strict oneline noblock : Bool) (o : POpts) (hs : o.strict = strict)
+    (ho : normAlphabet o.alphabet = 2) (as : List (List XRow)) (h : ∀ a ∈ as, reprPhylip strict a = true)
+    (hsize : ∀ a ∈ as, a.length ≤ 9223372036854775807 ∧ ∀ r ∈ a, r.2.length ≤ 9223372036854775807)
+    (halloc : af = false ∨ ∀ a ∈ as, a.length < 134217728) (fuel : Nat) (hf : as.length + 1 ≤ fuel) :
+    Phylip.parseMulti af o fuel { inp := as.flatMap (Phylip.write strict oneline noblock) } [] =
+      .done (as.map alnOf) true := by
+  have hgood : ∀ a ∈ as, Good af strict a := fun a ha =>
+    ph_good af strict a (h a ha) (hsize a ha) (halloc.imp id (fun hh => hh a ha))
+  have := multi_written af strict oneline noblock o hs ho as hgood fuel
+    ⟨as.flatMap (Phylip.write strict oneline noblock), .eof, false⟩ [] hf (At.fresh .eof)
+  simpa using this
+
+/-- the same with the fuel the oracle gives the loop (`len + 2`) -/
+theorem phylip_multi_oracle_fuel (af strict oneline noblock : Bool) (o : POpts) (hs : o.strict = strict)
+    (ho : normAlphabet o.alphabet = 2) (as : List (List XRow)) (h : ∀ a ∈ as, reprPhylip strict a = true)
+    (hsize : ∀ a ∈ as, a.length ≤ 9223372036854775807 ∧ ∀ r ∈ a, r.2.length ≤ 9223372036854775807)
+    (halloc : af = false ∨ ∀ a ∈ as, a.length < 134217728) :
+    Phylip.parseMulti af o ((as.flatMap (Phylip.write strict oneline noblock)).length + 2)
+      { inp := as.flatMap (Phylip.write strict oneline noblock) } [] = .done (as.map alnOf) true :=
+  phylip_multi af strict oneline noblock o hs ho as h hsize halloc _
+    (by have := stream_length strict oneline noblock as; omega)
+
+/-- non-vacuity and the conclusion evaluated: two alignments of different shapes in one relaxed stream -/
+example : Phylip.parseMulti false {} 3
+      { inp := List.flatMap (Phylip.write false false false) [[([97], [65, 67]), ([98], [71, 84])], [([49], [65, 45, 67])]] } [] =
+    .done [alnOf [([97], [65, 67]), ([98], [71, 84])], alnOf [([49], [65, 45, 67])]] true := by
+  rfl
 
 end PhylipRT
 
